@@ -91,6 +91,9 @@ BUILTIN = [
     ("circumcircle-existence-test-removed", ["C13"], "coxeter/shapes/polygon.py",
      "        if len(self.vertices) > 3 and not np.isclose(resids, 0):\n            raise RuntimeError(\"No circumcircle for this polygon.\")\n",
      ""),
+    ("off-overwrites-in-place-without-truncating", ["C20"], "coxeter/io.py",
+     "    content = content[:-1]\n\n    with open(filename, \"w\") as file:\n        file.write(content)\n\n\ndef to_stl",
+     "    content = content[:-1]\n\n    with open(filename, \"r+\" if os.path.exists(filename) else \"w\") as file:\n        file.write(content)\n\n\ndef to_stl"),
     ("form-factor-normalises-stored-normals", ["C16"], "coxeter/shapes/polygon.py",
      "            norm_normal = np.array(normal, dtype=np.float64)\n",
      "            norm_normal = np.asarray(normal, dtype=np.float64)\n"),
